@@ -122,6 +122,12 @@ class SymCtx(BaseCtx):
             return a <= b
         return a <= b + rtol * scale
 
+    def is_maxabs(self, p, series, scale=None):
+        """p is the largest absolute value of the series (exact in the real model)."""
+        from vf.engine import scalars as S
+        ab = [S.sym_abs(x) for x in series]
+        return S.sym_and(S.sym_and(*[p >= x for x in ab]), S.sym_or(*[p == x for x in ab]))
+
     def abs_lin_le(self, expr, weights, arr, force_solver=False):
         """claim |expr| <= sum_k weights[k]*|arr[k]| for a linear form expr over the input variables arr[k].
         Decided by the complete rule for this fragment (|c_k| <= w_k for every k and no other term: necessity by
@@ -185,6 +191,11 @@ class ConcCtx(BaseCtx):
         if scale is None:
             return bool(a <= b + RTOL_C * max(abs(a), abs(b)))
         return bool(a <= b + rtol * abs(scale))
+
+    def is_maxabs(self, p, series, scale=None):
+        m = max(abs(float(x)) for x in series)
+        s = max(m, abs(float(p))) if scale is None else abs(scale)
+        return bool(abs(float(p) - m) <= 1e-9 * s + 1e-300)
 
     def abs_lin_le(self, expr, weights, arr, force_solver=False):
         rhs = sum(float(w) * abs(float(x)) for w, x in zip(weights, arr))
